@@ -852,6 +852,7 @@ inline std::vector<std::pair<std::string, std::string>> RacePass(int iterations,
 
 int main(int argc, char** argv) {
     verif::Args args = verif::Args::Parse(argc, argv);
+    const bool shard_replay = verif::ParseShardReplay(args);
     verif::Result res;
     res.tier = args.tier;
     res.seed = args.seed;
@@ -874,7 +875,7 @@ int main(int argc, char** argv) {
         return 2;
     }
     c19::Run(args, res);
-    {
+    if (!shard_replay) {
         std::string note;
         auto races = c19::RacePass(args.thorough() ? 600 : 200, args.seed + 1, note);
         for (auto& r : races)
@@ -883,7 +884,7 @@ int main(int argc, char** argv) {
         if (note.find("missing") != std::string::npos)
             res.exhaustive = false;
     }
-    return res.Write(args.out.c_str()) ? 0 : 2;
+    return verif::Finish(args, res, shard_replay);
 }
 #else
 // =====================================================================================================
